@@ -277,8 +277,8 @@ func c16Run(c lib.Case, env *lib.Env) lib.Result {
 	}
 	prev := runtime.GOMAXPROCS(s.Procs)
 	defer runtime.GOMAXPROCS(prev)
-	pwr.VerifHook = sc.Hook
-	defer func() { pwr.VerifHook = nil }()
+	lib.SetHook(sc)
+	defer lib.SetHook(nil)
 	desc := fmt.Sprintf("build=%s damage=%s consumer=%s cancel=%s sched=%s procs=%d", s.Build, s.Damage, s.Consumer, s.Cancel, s.Sched, s.Procs)
 	var verr error
 	var panicked bool
@@ -288,7 +288,7 @@ func c16Run(c lib.Case, env *lib.Env) lib.Result {
 		verr, panicked, stack = lib.Guard(func() error { return vctx.Validate(ctx, dir, sig) })
 	}, 90*time.Second)
 	sc.Finish()
-	pwr.VerifHook = nil
+	lib.SetHook(nil)
 	res.Add("validations", 1)
 	res.Add("hook_events", int64(len(sc.Events())))
 	res.SetAdd("interleaving_signatures", sc.Signature())
